@@ -205,6 +205,27 @@ func c13(c *core.Ctx) {
 	c.Section("start-during-mass-collect", c.N(60, 20000), func(_ int64, r *gen.Rand) {
 		c13StartDuringMass(c, r)
 	})
+	// Start fails for a duplicate id or a closed agent - not because many transactions are in flight
+	c.SectionSerial("million-live-transactions", 1, func(_ int64, _ *gen.Rand) {
+		a := stun.NewAgent(func(stun.Event) {})
+		n := 1<<20 + 5
+		if c.Config != "rel" {
+			n = 1<<18 + 5 // bounded time under the race detector / in the debug build
+		}
+		for i := 0; i < n; i++ {
+			var id [stun.TransactionIDSize]byte
+			id[0], id[1], id[2], id[3] = byte(i), byte(i>>8), byte(i>>16), 0x3A
+			if err := a.Start(id, amTime(3)); err != nil {
+				c.Violate("spec-mismatch-capacity", "spec-mismatch:Start-with-many-in-flight", map[string]interface{}{"live_transactions": i, "agent_err": err.Error(), "spec_err": "nil"})
+
+				break
+			}
+		}
+		c.Eval(1)
+		c.Count("calls_compared", int64(n))
+		_ = a.Close()
+		c.Distinct(6 << 50)
+	})
 	// extreme instants: zero time, epoch, year 1, 2262 (UnixNano limit), 9999
 	c.SectionSerial("extreme-times", 1, func(_ int64, _ *gen.Rand) {
 		pts := []time.Time{{}, time.Unix(0, 0), time.Date(1, 1, 1, 0, 0, 1, 0, time.UTC), time.Unix(0, 1<<63-1), time.Unix(0, 1<<63-1).Add(time.Nanosecond),
@@ -453,12 +474,17 @@ func c13Reentrant(c *core.Ctx, r *gen.Rand) {
 	if outer != 0 {
 		trigger = 0
 	}
+	nestedClose := outer == 0 && r.Chance(1, 3) // the handler closes the agent while Collect is delivering
 	nestedErr := "not-called"
 	a = stun.NewAgent(func(e stun.Event) {
 		events[e.TransactionID] = append(events[e.TransactionID], amEventClass(e))
 		if seen == trigger {
 			seen++
-			nestedErr = amErrClass(a.Collect(t2))
+			if nestedClose {
+				nestedErr = amErrClass(a.Close())
+			} else {
+				nestedErr = amErrClass(a.Collect(t2))
+			}
 
 			return
 		}
@@ -494,7 +520,12 @@ func c13Reentrant(c *core.Ctx, r *gen.Rand) {
 	}
 	want := map[tid]string{}
 	for id, g := range group {
-		if g == 'A' || g == 'B' {
+		switch {
+		case g == 'A':
+			want[id] = evTimeout // unregistered by the outer Collect before the first handler ran: Collect delivers them all
+		case nestedClose:
+			want[id] = evClosed // still registered when the handler closed the agent
+		case g == 'B':
 			want[id] = evTimeout
 		}
 	}
@@ -531,6 +562,11 @@ func c13Reentrant(c *core.Ctx, r *gen.Rand) {
 		c.Violate("spec-mismatch-reentrant", "spec-mismatch:Collect-from-handler", map[string]interface{}{
 			"outer_call": []string{"Collect(t1)", "Stop(a0)", "Process(a0)"}[outer], "groups": fmt.Sprintf("A=%d B=%d C=%d", nA, nB, nC), "handler_calls_Collect_on_event": trigger, "problem": problem,
 		})
+
+		return
+	}
+	if nestedClose {
+		c.Distinct(r.U64())
 
 		return
 	}
